@@ -220,17 +220,26 @@ class GroupValidator:
                     validation_issues += ErrorHandler.format_error(error_code, child)
                 else:
                     error_code = ValidationErrors.HED_TAG_REPEATED_GROUP
-                    found_group = child
-                    base_steps_up = 0
-                    while isinstance(found_group, list):
-                        found_group = found_group[0]
-                        base_steps_up += 1
-                    for _ in range(base_steps_up):
-                        found_group = found_group._parent
-                    validation_issues += ErrorHandler.format_error(error_code, found_group)
+                    found_group, base_steps_up = self._first_tag_and_depth(child)
+                    # A group holding no tag at all (only empty groups) is reported as TAG_EMPTY, not as repeated.
+                    if found_group is not None:
+                        for _ in range(base_steps_up):
+                            found_group = found_group._parent
+                        validation_issues += ErrorHandler.format_error(error_code, found_group)
             if not isinstance(child, HedTag):
                 self._check_for_duplicate_groups_recursive(child, validation_issues)
             prev_child = child
+
+    @staticmethod
+    def _first_tag_and_depth(sorted_item, depth=0):
+        """ Return the first tag of a sorted (nested) list and how many groups deep it is; (None, depth) if no tag. """
+        if isinstance(sorted_item, HedTag):
+            return sorted_item, depth
+        for child in sorted_item:
+            found_tag, found_depth = GroupValidator._first_tag_and_depth(child, depth + 1)
+            if found_tag is not None:
+                return found_tag, found_depth
+        return None, depth
 
     def _check_for_duplicate_groups(self, original_group):
         sorted_group = original_group._sorted()
